@@ -205,7 +205,7 @@ _t('C10', 'Theorem C10_cli (end to end over the pipeline model): whenever cli pr
           'no lookup failure, i.e. no panic); the filtered table is the filter of the full table (C10_filter), the -v lines are the true rows (C10_vars). The pipeline that produces header, columns and the printed diagram (tokens -> vars -> free_vars -> eval -> retain -> model) is the Gallina function cli. '
           'Correspondence: the real binary against cli on the option grid (15 filter spellings, 3 channels, -c, -m, -b), all small orderings, random formulas/options/ordering files: header, row set, -v set.', NOTE_CLI)
 _t('C11', 'Theorem C11_text (over texts, no bound): the same formula text evaluated under ANY two orderings with pairwise distinct ids (permutations, subsets, supersets with unused names anywhere) yields diagrams that denote the same function of the NAMED variables. Proved through: tokens are a function of the final id table (classify_render), two runs differ by an id renaming that respects names (render_rename), the grammar is closed under id renaming and the parser is the grammar (C08), C11_meaning (renaming by any map with a left inverse renames the denotation). C11_file_orderings: the orderings the binary reads from a file have distinct ids. '
-          'C11_rank_iso: two id assignments related by a strictly increasing map (in particular sparse 64-bit ids and their ranks) yield the SAME diagram up to that renaming - by canonicity, both being reduced, ordered and equivalent - which is what lets S-text/evalid compare arbitrary ids with the model in rank space. C11_roundtrip: if the list exported with -r is read back as the ordering of a second run, the second run prints the identical header, rows, -v lines and -r list, for every formula, first ordering and -f / -c / -m (the second run numbers the variables by their position in the order of the first run, an order isomorphism on the variables of the text; the diagram is the first one renamed, and retain, model and both printers commute with the renaming). Partial: that the file of exported names lexes back to exactly those names is a hypothesis of that theorem, exercised by the real round trip in S-cli; that listed variables are ORDERED as in the file is C11_file_order together with C10_header (header order and round trip on the real binary). '
+          'C11_rank_iso: two id assignments related by a strictly increasing map (in particular sparse 64-bit ids and their ranks) yield the SAME diagram up to that renaming - by canonicity, both being reduced, ordered and equivalent - which is what lets S-text/evalid compare arbitrary ids with the model in rank space. C11_roundtrip: if the list exported with -r is read back as the ordering of a second run, the second run prints the identical header, rows, -v lines and -r list, for every formula, first ordering and -f / -c / -m (the second run numbers the variables by their position in the order of the first run, an order isomorphism on the variables of the text; the diagram is the first one renamed, and retain, model and both printers commute with the renaming). C11_roundtrip_export: the same through the exported TEXT (each name followed by a newline): the names -r prints are distinct non-keyword identifiers of the formula text, an identifier followed by a newline is a maximal lexeme and nothing starts at a newline, so the file lexes back to exactly that list (by uniqueness of the lexing relation). What remains a hypothesis is that the second run answers (it evaluates the renamed formula; for fixed-point-free formulas evaluation always answers). That listed variables are ORDERED as in the file is C11_file_order together with C10_header (header order and round trip on the real binary). '
           'Correspondence: 12 formulas x all 65 orderings over {a,b,c,u} incl. supersets with unused names in every position, duplicate/punctuation/keyword files, random ordering files; header order, row set by name, -r list, and the -r/-o round trip on the real binary.', NOTE_CLI)
 _t('C12', 'Theorem C12_no_panic: for EVERY fuel, code-point classification, option set (-f, -c, -m, -b), ordering-file text and formula text, the pipeline model cli (ordering file, tokenize, parse, vars, free_vars, eval, retain, model, both table printers) never returns CliPanic, i.e. no column lookup in either printer fails on the diagram that is printed (answer, retained answer, or a model of either). Proved from: every variable of a parsed tree is an identifier token and parser output has no embedded diagram (parse_vars, by induction over the grammar); the support of the answer consists of proper free occurrences (support_fv); retain and model keep shape and shrink the support; vars is duplicate-free (pf_vars_spec); the partition theorem. Also C12_table and C12_eval (fixed-point-free formulas always evaluate). '
           'The tokenizer/parser/evaluator model returns Error (never a panic value) on every input, and the correspondence shows the implementation returns Err exactly there. Partial by nature: stack exhaustion, allocation failure, clap and I/O are run-time behaviour. '
